@@ -6,7 +6,7 @@ use crate::ast::*;
 use crate::gen::{GenCfg, NamePool, REL_POOL};
 use crate::rng::Src;
 
-pub const LAT_TYPES: [Ty; 10] = [
+pub const LAT_TYPES: [Ty; 12] = [
    Ty::I32,
    Ty::U32,
    Ty::Bool,
@@ -17,6 +17,8 @@ pub const LAT_TYPES: [Ty; 10] = [
    Ty::CPropU8,
    Ty::PairU32,
    Ty::ProdU32DualU32,
+   Ty::PairDualU32,
+   Ty::DualSetU8,
 ];
 
 const CAP: i64 = 12;
@@ -40,6 +42,12 @@ fn mk_value<R: Src>(r: &mut R, vt: Ty, w: Expr) -> Expr {
          if r.chance(85) { Expr::CConst(bx(small(w, 3))) } else if r.chance(50) { Expr::CTop } else { Expr::CBot },
       Ty::PairU32 => Expr::Tup(vec![Expr::AddMod(bx(w.clone()), 0, 3), Expr::AddMod(bx(w), 1, 4)]),
       Ty::ProdU32DualU32 => Expr::ProdOf(bx(Expr::AddMod(bx(w.clone()), 0, 5)), bx(Expr::AddMod(bx(w), 2, 7))),
+      Ty::PairDualU32 => Expr::Tup(vec![Expr::DualOf(bx(Expr::AddMod(bx(w.clone()), 0, 4))), Expr::AddMod(bx(w), 1, 3)]),
+      // two- or three-element sets, so that intersections stay informative
+      Ty::DualSetU8 => Expr::DualOf(bx(Expr::SetUnion(
+         bx(Expr::SetUnion(bx(Expr::SetSingle(bx(small(w.clone(), 4)))), bx(Expr::SetSingle(bx(Expr::Cast(bx(Expr::AddMod(bx(w.clone()), 1, 4)), Ty::U8)))))),
+         bx(Expr::SetSingle(bx(Expr::Cast(bx(Expr::AddMod(bx(w), 2, 5)), Ty::U8)))),
+      ))),
       t => panic!("not a lattice value type: {t:?}"),
    }
 }
@@ -103,7 +111,16 @@ fn step<R: Src>(r: &mut R, vt: Ty, rd: &Read, w: Option<Expr>) -> Expr {
             Expr::SetUnion(bx(v), bx(Expr::SetSingle(bx(Expr::Cast(bx(Expr::AddMod(bx(w), 1, 4)), Ty::U8)))))
          }
       },
-      Ty::BSetU8 | Ty::CPropU8 | Ty::ProdU32DualU32 => rd.whole.clone().unwrap(),
+      Ty::BSetU8 | Ty::CPropU8 | Ty::ProdU32DualU32 | Ty::PairDualU32 => rd.whole.clone().unwrap(),
+      Ty::DualSetU8 => {
+         let v = rd.whole.clone().unwrap();
+         if r.chance(50) {
+            v
+         } else {
+            // A >= B (as sets) implies A + C >= B + C: monotone in the reversed order too
+            Expr::DualOf(bx(Expr::SetUnion(bx(Expr::UnDual(bx(v))), bx(Expr::SetSingle(bx(Expr::Cast(bx(Expr::AddMod(bx(w), 1, 4)), Ty::U8)))))))
+         }
+      },
       Ty::PairU32 => {
          let v = rd.whole.clone().unwrap();
          if r.chance(60) {
@@ -175,6 +192,18 @@ fn threshold<R: Src>(r: &mut R, vt: Ty, rd: &Read, names: &mut NamePool) -> Vec<
       ))],
       Ty::ProdU32DualU32 =>
          vec![Cond::If(Expr::Cmp(CmpOp::Le, bx(u32c(r.range(0, 4))), bx(Expr::ProdFst(bx(whole.unwrap())))))],
+      // upward closed in the reversed order = downward closed for sets: an element is absent
+      Ty::DualSetU8 => vec![Cond::If(Expr::Cmp(
+         CmpOp::Eq,
+         bx(Expr::SetContains(bx(Expr::UnDual(bx(whole.unwrap()))), bx(Expr::Int(r.range(0, 4), Ty::U8)))),
+         bx(Expr::Bool(false)),
+      ))],
+      // upward closed in the lexicographic order with the first component reversed
+      Ty::PairDualU32 => vec![Cond::If(Expr::Cmp(
+         CmpOp::Le,
+         bx(Expr::Tup(vec![Expr::DualOf(bx(u32c(r.range(0, 3)))), u32c(r.range(0, 2))])),
+         bx(whole.unwrap()),
+      ))],
       t => panic!("not a lattice value type: {t:?}"),
    }
 }
